@@ -786,8 +786,13 @@ def mk_slot_named(prog, w, name, chan_id, **kw):
             fields[names.index(n)] = copy.deepcopy(dflt[n])   # whatever ChannelSlot::new initialises it to
         v = Agg(fields, 'ChannelSlot')
     cn = prog.types.fields('ContentCollector')
-    if cn != ['channel_id', 'kind']:
+    if cn is None or not {'channel_id', 'kind'} <= set(cn):
         raise Unsupported(f"ContentCollector fields changed: {cn}")
+    if cn != ['channel_id', 'kind']:
+        ci = names.index('collector')
+        c0 = v.fields[ci]
+        if isinstance(c0, Agg) and set(c0.fields) == {0, 1} and c0.ty == 'ContentCollector':
+            v.fields[ci] = mk_struct(prog, 'ContentCollector', channel_id=c0.fields[0], kind=c0.fields[1])
     return v
 
 
@@ -1075,6 +1080,20 @@ def cell_summaries():
         r = argv[0]
         ex.write_path(st, r.cell, r.path + (('field', 0, ''),), argv[1])
         return [(st, Unit())]
+
+    @reg(r'^(std::cell::)?Cell::<.*>::(replace|take)$')
+    def c_replace(ex, st, fn, argv):
+        r = argv[0]
+        c = deref(ex, st, r)
+        old_v = value_copy(c.fields[0])
+        if fn.endswith('take'):
+            if not isinstance(old_v, Bool):
+                return NotImplemented
+            new_v = Bool(False)
+        else:
+            new_v = argv[1]
+        ex.write_path(st, r.cell, r.path + (('field', 0, ''),), new_v)
+        return [(st, old_v)]
 
     return S
 
